@@ -11,6 +11,18 @@ afterwards), all VIOLATION with a shrunk replay, quick tier, seed 0:
   M10 KeywordIndex.apply({'query': [..]}) defaults to operator 'or'
   M12 docids() cached on (indexed_count, not_indexed_count)
 and the seeded change C13_D (posting promoted to a TreeSet at tree_threshold, the triggering docid is lost).
+
+Builder wt_strong4: mode big (1 case in 160; measured 80 of 12000 = 0.7%): 520-2000 documents, counts() over
+500+ docids as list / tuple / IF Set / IF TreeSet (own and other family) / generator / Python set / dict keys /
+query result, the counted documents use only some of the facets while others are used by documents outside (96
+counts calls over >= 500 ids with a live facet that has no member among them); rejected index calls (6% of the
+history steps: Persistent / Broken value, raising attribute; measured per 12000 cases: 8371 on a docid with
+facets, 4444 facet-less, 1078 withdrawn, 7948 unknown) followed by an observation.
+  seeded C13_E  counts() bulk path for IF sets of >= 500 members reports zero counts   MISSED before, now caught
+  seeded C13_F  index_doc unindexes before discriminate()                              MISSED before, now caught
+  M13a counts(): sized collections (list/tuple/set) of >= 512 docids counted facet by facet, zero counts kept  caught
+  M13b index_doc removes the docid from _not_indexed before discriminate()                                      caught
+  M13c counts() looks at the first 1024 docids only                                                             caught
 """
 from lib.core import exc_name, idset
 
@@ -35,7 +47,11 @@ RULE = ("facet sets of 1-7 names from an adversarial pool (a, ab, abc, b, bc, c,
         "the family's range, any order) so that the first facet's posting holds 65-400 docids, 60% of them under "
         "the class default tree_threshold (others 64/100/32/200/5), 12% with 121-199 withdrawn documents, 45% "
         "with a drain of that posting back to 58-66 docids (or nothing), optimize(), then a small history on a few "
-        "ids and counts() over all ids. "
+        "ids and counts() over all ids. big mode (1 case in 160): 520-2000 documents, counts() over 500+ docids "
+        "given as list/tuple/IF Set/IF TreeSet (either family)/generator/set/dict keys/query result where some "
+        "configured facets are used only by documents outside the counted collection. 6% of the history steps are "
+        "index/reindex calls that fail in discriminate() (Persistent, Broken, raising attribute) on known "
+        "(with facets / facet-less / withdrawn) and unknown docids, followed by obs / counts / Eq. "
         "non-trivial = some counts answer is non-empty and the answers contain three different values")
 LEVEL_TEXT = ("Lean 4 proof: for every configured facet set and every history the model of FacetIndex (with its "
               "posting representation erased) represents the table docid -> {configured facets that are a "
@@ -61,6 +77,9 @@ QOPS = ["eq", "noteq", "any", "notany", "all", "notall"]
 THRS = [1, 2, 3, 5, 64]
 BULK_THRS = [64, 64, 64, 100, 32, 200, 5]
 BULK_SHARE = 0.08
+REJECTS = ["P", "P", "B", "R"]       # value tokens of index calls that raise: Persistent, Broken, raising discriminator
+BIG_EVERY = 160                      # one case in BIG_EVERY: 520-2000 documents, counts() over 500+ docids (gen_big)
+COLL_KINDS = ["list", "tuple", "ifset", "iftreeset", "gen", "pyset", "ifset-otherfamily", "keys"]
 
 
 def enc(f):
@@ -154,7 +173,7 @@ def gen_counts_of(rng, facets):
     return ["countsd", rng.choice(["docids", "docids", "indexed", "notindexed"]), "|"] + [enc(o) for o in om]
 
 
-def small_ops(rng, ids, facets, cmds, nops, thrs=THRS, allids=None):
+def small_ops(rng, ids, facets, cmds, nops, thrs=THRS, allids=None, rejects=False):
     last = {}
     for _ in range(nops):
         r = rng.random()
@@ -173,6 +192,21 @@ def small_ops(rng, ids, facets, cmds, nops, thrs=THRS, allids=None):
             cmds.append(["setthr", rng.choice(thrs)])
         elif r < 0.37 and d in last:
             cmds.append([rng.choice(["index", "reindex"]), d] + last[d])             # identical content again
+        elif rejects and r < 0.43:
+            # a call that fails in discriminate() (Persistent / Broken value: ValueError; the discriminator or the
+            # attribute itself raises): the index is what it was before, whatever it knew about this docid
+            if last and rng.random() < 0.7:
+                d = rng.choice(sorted(last))                                          # (probably) still known
+            cmds.append([rng.choice(["index", "index", "reindex"]), d, rng.choice(REJECTS)])
+            k = rng.random()
+            if k < 0.35:
+                cmds.append(["obs"])
+            elif k < 0.6:
+                cmds.append(["counts", d] + rng.sample(ids, min(len(ids), 3)) + ["|"])
+            elif k < 0.8:
+                cmds.append(["q", "eq", enc(rng.choice(facets))])
+            elif k < 0.9:
+                cmds.append(gen_counts_of(rng, facets))
         else:
             ps = [enc(p) for p in gen_paths(rng, facets)]
             cmds.append([rng.choice(["index", "index", "reindex"]), d] + ps)
@@ -206,12 +240,12 @@ def tail(rng, ids, facets, cmds):
 
 def gen_history(rng, tier, ids, facets, maxlen):
     cmds = []
-    small_ops(rng, ids, facets, cmds, rng.randrange(3, maxlen))
+    small_ops(rng, ids, facets, cmds, rng.randrange(3, maxlen), rejects=True)
     tail(rng, ids, facets, cmds)
     return cmds
 
 
-def gen_bulk(rng, tier, fam, facets):
+def gen_bulk(rng, tier, fam, facets, rejects=False):
     """size-dependent behaviour: 70-400 documents listed under 1-4 facets, the largest posting holds at least 65
     docids (tree_threshold = 64 by default, > 120 ints per set bucket), optionally > 120 withdrawn documents; then
     a `drain` that brings that posting back to 58..66 docids, an ordinary small history (optimize, threshold
@@ -264,8 +298,74 @@ def gen_bulk(rng, tier, fam, facets):
         cmds.append(via(rng, gen_query(rng, facets, "eq")))
     fresh = [ids[-1] + 1000 + i for i in range(3)] if ids[-1] + 1003 < top else [ids[0] - 1000 - i for i in range(3)]
     some = sorted(set([ids[0], ids[-1]] + rng.sample(ids, 8) + fresh))
-    small_ops(rng, some, facets, cmds, rng.randrange(5, 30), thrs=BULK_THRS, allids=allids)
+    small_ops(rng, some, facets, cmds, rng.randrange(5, 30), thrs=BULK_THRS, allids=allids, rejects=rejects)
     tail(rng, allids if rng.random() < 0.6 else some, facets, cmds)
+    return cmds
+
+
+def gen_big(rng, tier, fam, facets):
+    """counts() over LARGE docid collections of every kind (BTrees Set / TreeSet of the index's family or of the
+    other one, list, tuple, generator, Python set, dict keys, query results): 520-2000 documents, a counted subset of
+    500+ docids whose documents use only some of the configured facets, while the others are used (only, or also)
+    by documents OUTSIDE the counted subset - a facet without a member in the given docids is absent from the
+    answer whatever way the counting is organised."""
+    n = rng.choice([520, 600, 700, 800, 1000, 1000, 1500, 2000])
+    if tier == "quick" and n > 1000 and rng.random() < 0.5:
+        n = 700
+    base = rng.choice([0, 0, -(n // 2), 2 ** 31 - 1 - n, -2 ** 31] + ([2 ** 62 - n] if fam == 64 else []))
+    ids = [base + i for i in range(n)]
+    uniq = []
+    for f in facets:
+        if f not in uniq:
+            uniq.append(f)
+    k_in = rng.randrange(0, len(uniq)) if len(uniq) > 1 else rng.choice([0, 1])
+    f_in = uniq[:k_in]              # facets of the documents inside the counted subset
+    f_out = uniq[k_in:] or uniq     # facets used by the documents outside
+    m = rng.choice([500, 500, 501, 510, n - 20, n - 1, rng.randrange(500, n)])
+    m = max(min(m, n - 1), 1)
+    inside = set(rng.sample(ids, m)) if rng.random() < 0.5 else set(ids[:m])
+    cmds = []
+    order = list(ids)
+    if rng.random() < 0.4:
+        rng.shuffle(order)
+    for d in order:
+        if d in inside:
+            pool = f_in
+            r = rng.random()
+            if not pool or r < 0.15:
+                ps = [] if r < 0.07 else ["none"] if r < 0.1 else [rng.choice(PATH_EXTRA)]
+            else:
+                ps = [rng.choice(pool) + rng.choice(["", "", ":x"]) for _ in range(rng.choice([1, 1, 2]))]
+        else:
+            ps = [rng.choice(f_out) + rng.choice(["", "", ":x"]) for _ in range(rng.choice([1, 1, 2]))]
+            if rng.random() < 0.3 and f_in:
+                ps.append(rng.choice(f_in))
+        cmds.append(["index", d] + [p if p == "none" else enc(p) for p in ps])
+    sub = sorted(inside)
+
+    def counts_over(ds):
+        om = [] if rng.random() < 0.6 else [enc(rng.choice(uniq) + rng.choice(["", ":x"]))]
+        ds = list(ds)
+        if rng.random() < 0.5:
+            rng.shuffle(ds)
+        return ["countsk", rng.choice(COLL_KINDS)] + ds + ["|"] + om
+
+    def probes():
+        cmds.append(counts_over(sub))
+        if rng.random() < 0.6:
+            cmds.append(counts_over(sub + rng.sample(sorted(set(ids) - inside), min(n - m, rng.choice([0, 1, 5])))))
+        if rng.random() < 0.4:
+            cmds.append(counts_over(ids + [ids[-1] + 7 if ids[-1] + 7 < 2 ** 31 else ids[0] - 7]))
+        if rng.random() < 0.5:
+            cmds.append(["countsq"] + [enc(f) for f in (f_in or uniq)[:2]] + ["|"])
+        if rng.random() < 0.3:
+            cmds.append(gen_counts_of(rng, facets))
+    probes()
+    # a small history on a few ids (also: the only users of a facet go away), then the same questions again
+    some = rng.sample(sub, 5) + rng.sample(sorted(set(ids) - inside), min(n - m, 5))
+    small_ops(rng, some, facets, cmds, rng.randrange(3, 12), thrs=BULK_THRS, rejects=True)
+    probes()
+    cmds.append(["obs"])
     return cmds
 
 
@@ -285,11 +385,13 @@ def gen(rng, tier, idx):
         facets.append(facets[0])
     cfg = [["cfg", "facets"] + [enc(f) for f in facets], ["cfg", "family", fam],
            ["cfg", "disc", rng.choice(["attr", "callable"])], ["cfg", "opt", rng.randrange(2)]]
+    if idx % 1000003 % BIG_EVERY == 11:
+        return {"session": "facet", "cfg": cfg + [["cfg", "mode", "big"]], "cmds": gen_big(rng, tier, fam, facets)}
     if rng.random() < BULK_SHARE:
         # the class default tree_threshold (no instance attribute) in 60% of the bulk cases
         if rng.random() >= 0.6:
             cfg.append(["cfg", "thr", rng.choice(BULK_THRS)])
-        return {"session": "facet", "cfg": cfg + [["cfg", "mode", "bulk"]], "cmds": gen_bulk(rng, tier, fam, facets)}
+        return {"session": "facet", "cfg": cfg + [["cfg", "mode", "bulk"]], "cmds": gen_bulk(rng, tier, fam, facets, rejects=True)}
     maxlen = 40 if tier == "quick" or rng.random() < 0.93 else 200
     if rng.random() < 0.85:
         cfg.append(["cfg", "thr", rng.choice(THRS)])
@@ -300,6 +402,13 @@ def model_cmd(c):
     """KeywordIndex.apply() forms named by what they mean (see props/c02.py)"""
     if c[0] == "qa":
         return ["q", c[2]] + list(c[3:])
+    if c[0] == "countsk":
+        # counts() over a collection of the named kind: a set holds every docid once
+        i = c.index("|")
+        ds = list(c[2:i])
+        if c[1] in ("ifset", "iftreeset", "pyset", "ifset-otherfamily", "keys"):
+            ds = sorted(set(ds))
+        return ["counts"] + ds + list(c[i:])
     return c
 
 
@@ -326,8 +435,48 @@ class FacetImpl(object):
         o = Doc()
         if toks == ["none"]:
             return o
+        if toks == ["P"]:
+            from persistent import Persistent
+
+            class P(Persistent):
+                pass
+            o.x = P()
+            return o
+        if toks == ["B"]:
+            from ZODB.broken import Broken
+            o.x = Broken()
+            return o
+        if toks == ["R"]:
+            class Raising(object):
+                @property
+                def x(self):
+                    raise RuntimeError("the discriminated attribute cannot be computed")
+            return Raising()
         o.x = [dec(t) for t in toks]
         return o
+
+    def collection(self, kind, ds):
+        import BTrees
+        if kind == "list":
+            return list(ds)
+        if kind == "tuple":
+            return tuple(ds)
+        if kind == "ifset":
+            return self.fam.IF.Set(ds)
+        if kind == "iftreeset":
+            return self.fam.IF.TreeSet(ds)
+        if kind == "ifset-otherfamily":
+            other = BTrees.family64 if self.fam is BTrees.family32 else BTrees.family32
+            if any(not -2 ** 31 <= d < 2 ** 31 for d in ds):
+                return BTrees.family64.IF.TreeSet(ds)
+            return other.IF.Set(ds)
+        if kind == "gen":
+            return (d for d in ds)
+        if kind == "pyset":
+            return set(ds)
+        if kind == "keys":
+            return dict.fromkeys(ds).keys()
+        raise ValueError(kind)
 
     def query(self, via_object, q, raw=False):
         idx = self.idx
@@ -443,6 +592,11 @@ class FacetImpl(object):
                 return self.show_counts(self.idx.counts(ds, [dec(t) for t in c[i + 1:]]))
             if op == "counts":
                 return self.counts(c[1:])
+            if op == "countsk":
+                i = c.index("|")
+                om = [dec(t) for t in c[i + 1:]]
+                coll = self.collection(c[1], c[2:i])
+                return self.show_counts(self.idx.counts(coll, om) if om else self.idx.counts(coll))
             if op == "countsq":
                 # counts() fed with a query result (an IF set), the documented use
                 i = c.index("|")
@@ -484,7 +638,7 @@ def neighbourhood(rng, case):
         if c[0] == "tags":
             continue
         cmds.append(c)
-        if c[0] not in ("q", "qx", "qa", "obs", "counts", "countsq", "countsd"):
+        if c[0] not in ("q", "qx", "qa", "obs", "counts", "countsq", "countsd", "countsk"):
             for f in list(facets) + [enc(x) for x in rng.sample(FACET_POOL, 3)]:
                 cmds.append(["q", "eq", f])
             cmds.append(["q", "notall"])
@@ -493,8 +647,10 @@ def neighbourhood(rng, case):
 
 
 def nontrivial(case, outs):
-    answers = {o for c, o in zip(case["cmds"], outs) if c[0] in ("q", "qx", "qa", "counts", "countsq", "countsd")}
-    cn = [o for c, o in zip(case["cmds"], outs) if c[0] in ("counts", "countsq", "countsd") and o not in ("{}",)]
+    answers = {o for c, o in zip(case["cmds"], outs) if c[0] in ("q", "qx", "qa", "counts", "countsq", "countsd",
+                                                                   "countsk")}
+    cn = [o for c, o in zip(case["cmds"], outs) if c[0] in ("counts", "countsq", "countsd", "countsk")
+          and o not in ("{}",)]
     return len(answers) >= 3 and bool(cn)
 
 
@@ -515,6 +671,24 @@ def features(case, outs):
     state = {}
     fs = set(facets)
     for c, o in zip(case["cmds"], outs):
+        if c[0] in ("index", "reindex") and c[2:] in (["P"], ["B"], ["R"]):
+            old = state.get(c[1], "unknown")
+            f.append("index:rejected(%s):docid-%s" % (c[2], "unknown" if old == "unknown" else "withdrawn" if old == "none"
+                                                      else "with-facets" if old else "facetless"))
+            prev_cmd = c
+            continue
+        if c[0] == "countsk":
+            i = c.index("|")
+            nd = i - 2
+            size = "<500" if nd < 500 else "500-999" if nd < 1000 else ">=1000"
+            f.append("countsk:%s:%s" % (c[1], size))
+            inset = set(c[2:i])
+            zero = [x for x, cnt in post.items() if cnt > 0 and not any(
+                isinstance(state.get(d), set) and x in state[d] for d in inset)]
+            if zero and nd >= 500:
+                f.append("countsk:>=500-ids-and-a-live-facet-without-member")
+            prev_cmd = c
+            continue
         if c[0] in ("index", "reindex", "unindex"):
             old = state.get(c[1])
             for x in (old if isinstance(old, set) else ()):
